@@ -266,6 +266,8 @@ pub fn cases(tier: Tier, seed: u64) -> Vec<Case> {
         ("dense-dense", Shape::Single(2), vec![L::Dense(2, Tanh, true), L::Dense(1, Linear, false)], 1),
         ("conv-dense", Shape::Triple(1, 2, 2), vec![L::Conv(2, (2, 2), (1, 1), (0, 0), (1, 1), Linear), L::Dense(2, Linear, true)], 2),
         ("feedback-dense", Shape::Single(2), vec![L::Feedback(vec![L::Dense(2, Linear, true)], 2, false, false, Acc::Mean), L::Dense(1, Linear, true)], 1),
+        ("conv-pool-dense", Shape::Triple(1, 2, 2), vec![L::Conv(1, (2, 2), (1, 1), (1, 1), (1, 1), Linear), L::Pool((1, 1), (1, 1)), L::Dense(1, Linear, true)], 1),
+        ("deconv-dense-dense", Shape::Triple(1, 1, 2), vec![L::Deconv(1, (1, 2), (1, 1), (0, 0), Linear), L::Dense(2, Linear, true), L::Dense(1, Linear, false)], 1),
     ];
     let mut triples: Vec<(usize, usize, usize)> = Vec::new();
     for n in 1..=5usize {
@@ -288,7 +290,9 @@ pub fn cases(tier: Tier, seed: u64) -> Vec<Case> {
                 if !full {
                     // 12 triples rotating with the seed, always containing B=1, B∤N, B>N, E=2
                     let must = matches!((n, b, e), (3, 1, 1) | (3, 2, 1) | (2, 5, 1) | (4, 2, 2) | (5, 3, 1) | (1, 1, 2));
-                    if !(must && *name == "dense-dense") && mix(k ^ seed) % 23 != 0 {
+                    // every network sees at least one group with several samples and a partial last group
+                    let per_net = matches!((n, b, e), (3, 2, 1) | (4, 3, 2));
+                    if !(must && *name == "dense-dense") && !per_net && mix(k ^ seed) % 23 != 0 {
                         continue;
                     }
                 }
